@@ -1,4 +1,544 @@
 import PeliteModel.Model.Relocs
 /-! Helper lemmas for C14. -/
 namespace Pelite.Relocs
+
+/-! ### unfolding `peek` / `blocksFrom` -/
+
+/-- the block `peek` produces at `off` when at least 8 bytes remain -/
+def blockAt (data : Bytes) (off : Nat) : Block :=
+  { off := off, va := le32 data off, size := le32 data (off + 4),
+    nwords := (min (le32 data (off + 4)) (data.size - off) - 8) / 2 }
+
+theorem peek_of_ge {data : Bytes} {off : Nat} (h : off + 8 ≤ data.size) :
+    peek data off = some (blockAt data off) := by
+  unfold peek blockAt
+  simp only
+  rw [if_pos (by omega)]
+
+theorem peek_of_lt {data : Bytes} {off : Nat} (h : data.size < off + 8) :
+    peek data off = none := by
+  unfold peek
+  simp only
+  rw [if_neg (by omega)]
+
+theorem blocksFrom_of_lt {data : Bytes} {off : Nat} (h : data.size < off + 8) :
+    blocksFrom data off = [] := by
+  rw [blocksFrom]
+  split
+  · rfl
+  · next b hb => rw [peek_of_lt h] at hb; cases hb
+
+theorem blocksFrom_of_ge {data : Bytes} {off : Nat} (h : off + 8 ≤ data.size) :
+    blocksFrom data off =
+      blockAt data off ::
+        blocksFrom data (off + step (le32 data (off + 4)) (data.size - off)) := by
+  rw [blocksFrom]
+  split
+  · next hb => rw [peek_of_ge h] at hb; cases hb
+  · next b hb =>
+    rw [peek_of_ge h] at hb
+    cases hb
+    rfl
+
+theorem blocksFrom_cons_inv {data : Bytes} {off : Nat} {b : Block} {rest : List Block}
+    (h : blocksFrom data off = b :: rest) :
+    off + 8 ≤ data.size ∧ b = blockAt data off ∧
+      rest = blocksFrom data (off + step (le32 data (off + 4)) (data.size - off)) := by
+  by_cases hlt : data.size < off + 8
+  · rw [blocksFrom_of_lt hlt] at h; cases h
+  · have hge : off + 8 ≤ data.size := by omega
+    rw [blocksFrom_of_ge hge] at h
+    cases h
+    exact ⟨hge, rfl, rfl⟩
+
+theorem step_ge {size rem : Nat} (hs : size < 4294967296) (h : 8 ≤ rem) : 8 ≤ step size rem :=
+  step_pos hs h
+
+theorem step_le (size rem : Nat) : step size rem ≤ rem := by
+  unfold step; omega
+
+/-- on a well-formed header the iterator advances by exactly `SizeOfBlock` -/
+theorem step_eq_size {size rem : Nat} (hs : size < 4294967296) (h4 : size % 4 = 0)
+    (h8 : 8 ≤ size) (hle : size ≤ rem) : step size rem = size := by
+  unfold step alignTo64 wadd64
+  omega
+
+/-- the step is a multiple of four unless it runs into the end of the directory -/
+theorem step_mod4_or (size rem : Nat) : step size rem % 4 = 0 ∨ step size rem = rem := by
+  unfold step alignTo64 wadd64
+  omega
+
+theorem blocksFrom_length_le (data : Bytes) (off : Nat) :
+    (blocksFrom data off).length ≤ (data.size - off) / 8 := by
+  generalize hn : data.size - off = n
+  induction n using Nat.strongRecOn generalizing off with
+  | ind n ih =>
+    by_cases hlt : data.size < off + 8
+    · rw [blocksFrom_of_lt hlt]; simp
+    · have hge : off + 8 ≤ data.size := by omega
+      rw [blocksFrom_of_ge hge]
+      have h1 := step_ge (le32_lt data (off + 4)) (rem := data.size - off) (by omega)
+      have h2 := step_le (le32 data (off + 4)) (data.size - off)
+      have := ih (data.size - (off + step (le32 data (off + 4)) (data.size - off))) (by omega)
+        (off + step (le32 data (off + 4)) (data.size - off)) rfl
+      simp only [List.length_cons]
+      omega
+
+/-- every block of the iteration started at a 4-aligned offset is `blockAt` some 4-aligned
+offset with a complete header -/
+theorem mem_blocksFrom {data : Bytes} {off : Nat} {b : Block} (h4 : off % 4 = 0)
+    (hmem : b ∈ blocksFrom data off) :
+    ∃ o, off ≤ o ∧ o % 4 = 0 ∧ o + 8 ≤ data.size ∧ b = blockAt data o := by
+  generalize hn : data.size - off = n at *
+  induction n using Nat.strongRecOn generalizing off with
+  | ind n ih =>
+    by_cases hlt : data.size < off + 8
+    · rw [blocksFrom_of_lt hlt] at hmem; cases hmem
+    · have hge : off + 8 ≤ data.size := by omega
+      rw [blocksFrom_of_ge hge] at hmem
+      rcases List.mem_cons.mp hmem with rfl | hmem
+      · exact ⟨off, Nat.le_refl _, h4, hge, rfl⟩
+      · have h1 := step_ge (le32_lt data (off + 4)) (rem := data.size - off) (by omega)
+        have h2 := step_le (le32 data (off + 4)) (data.size - off)
+        rcases step_mod4_or (le32 data (off + 4)) (data.size - off) with h3 | h3
+        · obtain ⟨o, ho1, ho2, ho3, ho4⟩ :=
+            ih (data.size - (off + step (le32 data (off + 4)) (data.size - off))) (by omega)
+              (off := off + step (le32 data (off + 4)) (data.size - off)) (by omega) hmem rfl
+          exact ⟨o, by omega, ho2, ho3, ho4⟩
+        · rw [h3, blocksFrom_of_lt (by omega)] at hmem
+          cases hmem
+
+/-! ### little-endian reads over `List.toArray` / append -/
+
+theorem byteAt_toArray (l : List UInt8) (i : Nat) : byteAt l.toArray i = (l.getD i 0).toNat := by
+  simp [byteAt]
+
+theorem byteAt_append_right (pre l : List UInt8) (i : Nat) :
+    byteAt (pre ++ l).toArray (pre.length + i) = byteAt l.toArray i := by
+  simp [byteAt_toArray, List.getD_eq_getElem?_getD, List.getElem?_append_right]
+
+theorem le16_u16le (w : Nat) (post : List UInt8) : le16 (u16le w ++ post).toArray 0 = w % 65536 := by
+  simp [le16, byteAt_toArray, u16le]
+  omega
+
+theorem le32_u32le (w : Nat) (post : List UInt8) : le32 (u32le w ++ post).toArray 0 = w % 4294967296 := by
+  simp [le32, byteAt_toArray, u32le]
+  omega
+
+theorem le16_append_right (pre l : List UInt8) (i : Nat) :
+    le16 (pre ++ l).toArray (pre.length + i) = le16 l.toArray i := by
+  unfold le16
+  rw [Nat.add_assoc, byteAt_append_right, byteAt_append_right]
+
+theorem le32_append_right (pre l : List UInt8) (i : Nat) :
+    le32 (pre ++ l).toArray (pre.length + i) = le32 l.toArray i := by
+  unfold le32
+  simp only [Nat.add_assoc, byteAt_append_right]
+
+@[simp] theorem length_u16le (w : Nat) : (u16le w).length = 2 := rfl
+@[simp] theorem length_u32le (w : Nat) : (u32le w).length = 4 := rfl
+
+theorem length_flatMap_u16le (ws : List Nat) : (ws.flatMap u16le).length = 2 * ws.length := by
+  induction ws with
+  | nil => rfl
+  | cons w ws ih => simp only [List.flatMap_cons, List.length_append, length_u16le, ih, List.length_cons]; omega
+
+/-- reading back a run of encoded 16-bit words -/
+theorem words_read (ws : List Nat) (hws : ∀ w ∈ ws, w < 65536) (pre post : List UInt8) :
+    (List.range ws.length).map
+      (fun i => le16 (pre ++ (ws.flatMap u16le ++ post)).toArray (pre.length + 2 * i)) = ws := by
+  induction ws generalizing pre with
+  | nil => rfl
+  | cons w ws ih =>
+    rw [List.length_cons, List.range_succ_eq_map, List.map_cons, List.map_map]
+    congr 1
+    · simp only [List.flatMap_cons, List.append_assoc, Nat.mul_zero]
+      rw [le16_append_right, le16_u16le]
+      have := hws w (by simp)
+      omega
+    · have h := ih (fun w' h => hws w' (by simp [h])) (pre ++ u16le w)
+      refine Eq.trans ?_ h
+      apply List.map_congr_left
+      intro i _
+      simp only [Function.comp, List.flatMap_cons, List.append_assoc, List.length_append,
+        length_u16le]
+      congr 1
+      omega
+
+/-! ### type/offset words -/
+
+theorem encodeTypeOffset_eq {start rva ty : Nat} (h1 : start ≤ rva) (h2 : rva ≤ start + 4095)
+    (hty : ty ≤ 15) : encodeTypeOffset start rva ty = (rva - start) + ty * 4096 := by
+  unfold encodeTypeOffset
+  have hd : rva - start < 2 ^ 12 := by omega
+  rw [Nat.or_comm, ← Nat.shiftLeft_add_eq_or_of_lt hd, Nat.shiftLeft_eq]
+  omega
+
+theorem encodeTypeOffset_lt (start rva ty : Nat) : encodeTypeOffset start rva ty < 65536 := by
+  unfold encodeTypeOffset; omega
+
+theorem typeOf_encode {start rva ty : Nat} (h1 : start ≤ rva) (h2 : rva ≤ start + 4095)
+    (hty : ty ≤ 15) : typeOf (encodeTypeOffset start rva ty) = ty := by
+  rw [encodeTypeOffset_eq h1 h2 hty]; unfold typeOf; omega
+
+theorem rvaOf_encode {start rva ty : Nat} (h1 : start ≤ rva) (h2 : rva ≤ start + 4095)
+    (hty : ty ≤ 15) (hr : rva < 4294967296) : rvaOf start (encodeTypeOffset start rva ty) = rva := by
+  rw [encodeTypeOffset_eq h1 h2 hty]; unfold rvaOf wadd32; omega
+
+/-! ### the shape of one built block -/
+
+/-- the 16-bit words of one block of `build`, padding included -/
+def blockWords (start : Nat) (ps : List (Nat × Nat)) : List Nat :=
+  ps.map (fun p => encodeTypeOffset start p.1 p.2) ++ (if ps.length % 2 = 1 then [0] else [])
+
+theorem buildBlock_eq (start : Nat) (ps : List (Nat × Nat)) :
+    buildBlock start ps =
+      u32le start ++ (u32le (alignTo64 (8 + 2 * ps.length) 4) ++ (blockWords start ps).flatMap u16le) := by
+  unfold buildBlock blockWords
+  simp only [List.flatMap_append, List.flatMap_map, List.append_assoc]
+  split <;> simp
+
+theorem blockWords_lt (start : Nat) (ps : List (Nat × Nat)) : ∀ w ∈ blockWords start ps, w < 65536 := by
+  intro w hw
+  unfold blockWords at hw
+  rcases List.mem_append.mp hw with h | h
+  · obtain ⟨p, -, rfl⟩ := List.mem_map.mp h
+    exact encodeTypeOffset_lt _ _ _
+  · split at h
+    · simp at h; omega
+    · cases h
+
+theorem length_blockWords (start : Nat) (ps : List (Nat × Nat)) :
+    (blockWords start ps).length = ps.length + ps.length % 2 := by
+  unfold blockWords
+  split <;> simp <;> omega
+
+theorem alignTo64_block {n : Nat} (hfit : 2 * n + 11 < 4294967296) :
+    alignTo64 (8 + 2 * n) 4 = 8 + 2 * (n + n % 2) := by
+  unfold alignTo64 wadd64; omega
+
+theorem length_buildBlock (start : Nat) (ps : List (Nat × Nat)) :
+    (buildBlock start ps).length = 8 + 2 * (ps.length + ps.length % 2) := by
+  rw [buildBlock_eq]
+  simp only [List.length_append, length_u32le, length_flatMap_u16le, length_blockWords]
+  omega
+
+theorem le32_at (pre l : List UInt8) : le32 (pre ++ l).toArray pre.length = le32 l.toArray 0 := by
+  have := le32_append_right pre l 0
+  rwa [Nat.add_zero] at this
+
+/-- header fields of a built block read back, truncated to `u32` as stored -/
+theorem built_header_raw (pre post : List UInt8) (start : Nat) (chunk : List (Nat × Nat)) :
+    le32 (pre ++ (buildBlock start chunk ++ post)).toArray pre.length = start % 4294967296 ∧
+    le32 (pre ++ (buildBlock start chunk ++ post)).toArray (pre.length + 4) =
+      alignTo64 (8 + 2 * chunk.length) 4 % 4294967296 := by
+  constructor
+  · rw [le32_at, buildBlock_eq, List.append_assoc, le32_u32le]
+  · rw [le32_append_right, buildBlock_eq, List.append_assoc]
+    have := le32_append_right (u32le start)
+      (u32le (alignTo64 (8 + 2 * chunk.length) 4) ++ List.flatMap u16le (blockWords start chunk) ++ post) 0
+    rw [length_u32le] at this
+    rw [this, List.append_assoc, le32_u32le]
+
+/-- header fields of a built block read back -/
+theorem built_header (pre post : List UInt8) (start : Nat) (chunk : List (Nat × Nat))
+    (hstart : start < 4294967296) (hfit : 2 * chunk.length + 11 < 4294967296) :
+    le32 (pre ++ (buildBlock start chunk ++ post)).toArray pre.length = start ∧
+    le32 (pre ++ (buildBlock start chunk ++ post)).toArray (pre.length + 4) =
+      (buildBlock start chunk).length := by
+  obtain ⟨h1, h2⟩ := built_header_raw pre post start chunk
+  rw [h1, h2, length_buildBlock, alignTo64_block hfit]
+  omega
+
+/-- the iterator standing at a built block yields it and advances to its end -/
+theorem blocksFrom_built (pre post : List UInt8) (start : Nat) (chunk : List (Nat × Nat))
+    (hstart : start < 4294967296) (hfit : 2 * chunk.length + 11 < 4294967296) :
+    blocksFrom (pre ++ (buildBlock start chunk ++ post)).toArray pre.length =
+      ⟨pre.length, start, (buildBlock start chunk).length, (blockWords start chunk).length⟩ ::
+        blocksFrom (pre ++ (buildBlock start chunk ++ post)).toArray
+          (pre.length + (buildBlock start chunk).length) := by
+  obtain ⟨hva, hsz⟩ := built_header pre post start chunk hstart hfit
+  have hlen := length_buildBlock start chunk
+  have hsize : (pre ++ (buildBlock start chunk ++ post)).toArray.size =
+      pre.length + ((buildBlock start chunk).length + post.length) := by simp
+  rw [blocksFrom_of_ge (by omega)]
+  congr 1
+  · simp only [blockAt, hva, hsz, hsize, length_blockWords]
+    congr 1
+    omega
+  · rw [hsz, step_eq_size (by omega) (by omega) (by omega) (by omega)]
+
+/-- the words of a built block read back -/
+theorem words_built (pre post : List UInt8) (start : Nat) (chunk : List (Nat × Nat)) (va size : Nat) :
+    Block.words (pre ++ (buildBlock start chunk ++ post)).toArray
+      ⟨pre.length, va, size, (blockWords start chunk).length⟩ = blockWords start chunk := by
+  unfold Block.words
+  simp only
+  have h := words_read (blockWords start chunk) (blockWords_lt start chunk)
+    (pre ++ (u32le start ++ u32le (alignTo64 (8 + 2 * chunk.length) 4))) post
+  simp only [List.length_append, length_u32le] at h
+  rw [buildBlock_eq]
+  simpa [List.append_assoc, Nat.add_assoc] using h
+
+/-! ### `runLen` / `buildList` -/
+
+theorem runLen_take_mem (start stop : Nat) (l : List (Nat × Nat)) :
+    ∀ p ∈ l.take (runLen start stop l), start ≤ p.1 ∧ p.1 ≤ stop := by
+  induction l with
+  | nil => intro p hp; simp [runLen] at hp
+  | cons q l ih =>
+    intro p hp
+    unfold runLen at hp
+    split at hp
+    · next hq =>
+      rw [List.take_succ_cons] at hp
+      rcases List.mem_cons.mp hp with rfl | hp
+      · exact hq
+      · exact ih p hp
+    · simp at hp
+
+theorem runLen_pos (p : Nat × Nat) (ps : List (Nat × Nat)) :
+    1 ≤ runLen (p.1 / 4096 * 4096) (p.1 / 4096 * 4096 + 4095) (p :: ps) := by
+  unfold runLen
+  rw [if_pos (by omega)]
+  omega
+
+theorem buildList_cons (p : Nat × Nat) (ps : List (Nat × Nat)) :
+    buildList (p :: ps) =
+      buildBlock (p.1 / 4096 * 4096)
+          ((p :: ps).take (runLen (p.1 / 4096 * 4096) (p.1 / 4096 * 4096 + 4095) (p :: ps))) ++
+        buildList ((p :: ps).drop (runLen (p.1 / 4096 * 4096) (p.1 / 4096 * 4096 + 4095) (p :: ps))) := by
+  rw [buildList]
+
+/-- decoding the words of a built block gives back its pairs (the padding word is skipped) -/
+theorem flat_blockWords (start : Nat) (chunk : List (Nat × Nat))
+    (h : ∀ p ∈ chunk, start ≤ p.1 ∧ p.1 ≤ start + 4095 ∧ p.1 < 4294967296 ∧ 1 ≤ p.2 ∧ p.2 ≤ 15) :
+    (blockWords start chunk).filterMap
+      (fun w => if typeOf w ≠ 0 then some (rvaOf start w, typeOf w) else none) = chunk := by
+  unfold blockWords
+  rw [List.filterMap_append]
+  have hpad : (if chunk.length % 2 = 1 then [0] else []).filterMap
+      (fun w => if typeOf w ≠ 0 then some (rvaOf start w, typeOf w) else none) = [] := by
+    split <;> simp [typeOf]
+  rw [hpad, List.append_nil]
+  clear hpad
+  induction chunk with
+  | nil => rfl
+  | cons p ps ih =>
+    obtain ⟨h1, h2, h3, h4, h5⟩ := h p (by simp)
+    rw [List.map_cons, List.filterMap_cons, typeOf_encode h1 h2 h5, rvaOf_encode h1 h2 h5 h3]
+    have : ¬ p.2 = 0 := by omega
+    simp only [ne_eq, this, not_false_eq_true, if_true]
+    rw [ih (fun q hq => h q (by simp [hq]))]
+
+theorem flatBlock_built (pre post : List UInt8) (start : Nat) (chunk : List (Nat × Nat)) (size : Nat)
+    (h : ∀ p ∈ chunk, start ≤ p.1 ∧ p.1 ≤ start + 4095 ∧ p.1 < 4294967296 ∧ 1 ≤ p.2 ∧ p.2 ≤ 15) :
+    flatBlock (pre ++ (buildBlock start chunk ++ post)).toArray
+      ⟨pre.length, start, size, (blockWords start chunk).length⟩ = chunk := by
+  unfold flatBlock
+  rw [words_built]
+  exact flat_blockWords start chunk h
+
+/-! ### the whole output of `build` -/
+
+/-- The `SizeOfBlock` field is a `u32`: a page with 2^31-5 or more entries cannot be represented
+(the Rust code truncates with `as u32`).  Either bound below excludes that. -/
+def Fits (ps : List (Nat × Nat)) : Prop :=
+  ps.length < 2147483643 ∨ (buildList ps).length < 4294967296
+
+theorem Fits.chunk {p : Nat × Nat} {ps : List (Nat × Nat)} (h : Fits (p :: ps)) :
+    2 * ((p :: ps).take (runLen (p.1 / 4096 * 4096) (p.1 / 4096 * 4096 + 4095) (p :: ps))).length + 11
+        < 4294967296 ∧
+      Fits ((p :: ps).drop (runLen (p.1 / 4096 * 4096) (p.1 / 4096 * 4096 + 4095) (p :: ps))) := by
+  have hle := runLen_le (p.1 / 4096 * 4096) (p.1 / 4096 * 4096 + 4095) (p :: ps)
+  rcases h with h | h
+  · refine ⟨?_, Or.inl ?_⟩
+    · rw [List.length_take]; omega
+    · rw [List.length_drop]; omega
+  · rw [buildList_cons, List.length_append, length_buildBlock, List.length_take] at h
+    refine ⟨?_, Or.inr ?_⟩
+    · rw [List.length_take]; omega
+    · omega
+
+theorem buildList_nil : buildList [] = [] := by rw [buildList]
+
+/-- well-formedness of every block the iterator finds in `pre ++ buildList ps` from `pre.length` on -/
+theorem built_blocks_wf (ps : List (Nat × Nat)) (pre : List UInt8) (hfit : Fits ps)
+    (hps : ∀ p ∈ ps, p.1 < 4294967296) :
+    ∀ b ∈ blocksFrom (pre ++ buildList ps).toArray pre.length,
+      b.va % 4096 = 0 ∧ b.size % 4 = 0 ∧ 12 ≤ b.size ∧
+        b.off + b.size ≤ pre.length + (buildList ps).length := by
+  generalize hn : ps.length = n
+  induction n using Nat.strongRecOn generalizing ps pre with
+  | ind n ih =>
+    cases ps with
+    | nil =>
+      intro b hb
+      rw [blocksFrom_of_lt (by simp [buildList_nil])] at hb
+      cases hb
+    | cons p ps =>
+      obtain ⟨hc, hfit'⟩ := hfit.chunk
+      have hpos := runLen_pos p ps
+      have hle := runLen_le (p.1 / 4096 * 4096) (p.1 / 4096 * 4096 + 4095) (p :: ps)
+      have hp := hps p (by simp)
+      intro b hb
+      rw [buildList_cons] at hb ⊢
+      rw [blocksFrom_built pre _ _ _ (by omega) hc] at hb
+      have hbl := length_buildBlock (p.1 / 4096 * 4096)
+        ((p :: ps).take (runLen (p.1 / 4096 * 4096) (p.1 / 4096 * 4096 + 4095) (p :: ps)))
+      rw [List.length_take] at hbl
+      rcases List.mem_cons.mp hb with rfl | hb
+      · simp only [List.length_append]
+        omega
+      · rw [← List.append_assoc, ← List.length_append] at hb
+        have := ih _ (by rw [← hn, List.length_drop]; omega) _ (pre ++ buildBlock _ _) hfit'
+          (fun q hq => hps q (List.mem_of_mem_drop hq)) rfl b hb
+        simp only [List.length_append] at this ⊢
+        omega
+
+/-- flattening the blocks the iterator finds in `pre ++ buildList ps` from `pre.length` on -/
+theorem built_flat (ps : List (Nat × Nat)) (pre : List UInt8) (hfit : Fits ps)
+    (hps : ∀ p ∈ ps, p.1 < 4294967296 ∧ 1 ≤ p.2 ∧ p.2 ≤ 15) :
+    (blocksFrom (pre ++ buildList ps).toArray pre.length).flatMap
+      (flatBlock (pre ++ buildList ps).toArray) = ps := by
+  generalize hn : ps.length = n
+  induction n using Nat.strongRecOn generalizing ps pre with
+  | ind n ih =>
+    cases ps with
+    | nil =>
+      rw [blocksFrom_of_lt (by simp [buildList_nil])]
+      rfl
+    | cons p ps =>
+      obtain ⟨hc, hfit'⟩ := hfit.chunk
+      have hpos := runLen_pos p ps
+      have hle := runLen_le (p.1 / 4096 * 4096) (p.1 / 4096 * 4096 + 4095) (p :: ps)
+      have hp := hps p (by simp)
+      rw [buildList_cons]
+      rw [blocksFrom_built pre _ _ _ (by omega) hc, List.flatMap_cons]
+      rw [flatBlock_built]
+      · rw [← List.append_assoc, ← List.length_append]
+        rw [ih _ (by rw [← hn, List.length_drop]; omega) _ (pre ++ buildBlock _ _) hfit'
+          (fun q hq => hps q (List.mem_of_mem_drop hq)) rfl]
+        exact List.take_append_drop _ _
+      · intro q hq
+        have h1 := runLen_take_mem _ _ _ q hq
+        have h2 := hps q (List.mem_of_mem_take hq)
+        omega
+
+theorem blocks_build (ps : List (Nat × Nat)) :
+    blocks (build ps) = blocksFrom (([] : List UInt8) ++ buildList ps).toArray ([] : List UInt8).length := rfl
+
+/-! ### the `SizeOfBlock` truncation: why `build` needs a bound on its input -/
+
+theorem runLen_replicate (k : Nat) : runLen 0 4095 (List.replicate k (0, 1)) = k := by
+  induction k with
+  | zero => rfl
+  | succ k ih => rw [List.replicate_succ, runLen, if_pos (by simp), ih]
+
+theorem buildList_replicate (k : Nat) :
+    buildList (List.replicate (k + 1) (0, 1)) = buildBlock 0 (List.replicate (k + 1) (0, 1)) := by
+  have h := buildList_cons (0, 1) (List.replicate k (0, 1))
+  rw [← List.replicate_succ] at h
+  simp only [Nat.zero_div, Nat.zero_mul, Nat.zero_add] at h
+  rw [runLen_replicate] at h
+  rw [h]
+  simp [buildList_nil]
+
+theorem le32_eq_le16 (data : Bytes) (i : Nat) :
+    le32 data i = le16 data i + 65536 * le16 data (i + 2) := by
+  unfold le32 le16
+  rw [show i + 2 + 1 = i + 3 from rfl]
+  omega
+
+/-- one encoded word read back -/
+theorem word_read (ws : List Nat) (hws : ∀ w ∈ ws, w < 65536) (pre post : List UInt8) (i : Nat)
+    (hi : i < ws.length) :
+    le16 (pre ++ (ws.flatMap u16le ++ post)).toArray (pre.length + 2 * i) = ws[i] := by
+  have h := congrArg (fun l => l[i]?) (words_read ws hws pre post)
+  simpa [hi] using h
+
+
+/-- The data `build` produces for 2147483644 entries on page 0: the first header says
+`SizeOfBlock = 0` (2^32 truncated) and the iterator resynchronises 8 bytes later, inside the
+entries. -/
+theorem huge_blocks (k : Nat) (hk : k + 1 = 2147483644) :
+    ∃ tl, blocks (build (List.replicate (k + 1) (0, 1))) = ⟨0, 0, 0, 0⟩ :: tl ∧
+      ∃ tl', flat (build (List.replicate (k + 1) (0, 1))) = (268439552, 1) :: tl' := by
+  generalize hps : List.replicate (k + 1) ((0, 1) : Nat × Nat) = ps
+  have hlen : ps.length = k + 1 := by rw [← hps, List.length_replicate]
+  have hdata : build ps = (([] : List UInt8) ++ (buildBlock 0 ps ++ [])).toArray := by
+    rw [build, ← hps, buildList_replicate]; simp
+  generalize hd : build ps = data at *
+  have hsize : data.size = 4294967296 := by
+    rw [hdata]; simp [length_buildBlock, hlen]; omega
+  obtain ⟨hva, hsz⟩ := built_header_raw [] [] 0 ps
+  rw [← hdata] at hva hsz
+  simp only [List.length_nil, Nat.zero_add, Nat.zero_mod] at hva hsz
+  have hsz0 : le32 data 4 = 0 := by
+    rw [hsz, hlen]; unfold alignTo64 wadd64; omega
+  -- the words
+  have hws : blockWords 0 ps = List.replicate (k + 1) 4096 := by
+    unfold blockWords
+    rw [if_neg (by omega), ← hps]
+    simp [encodeTypeOffset]
+  have hbytes : data = ((u32le 0 ++ u32le (alignTo64 (8 + 2 * ps.length) 4)) ++
+      ((List.replicate (k + 1) 4096).flatMap u16le ++ [])).toArray := by
+    rw [hdata, buildBlock_eq, hws]; simp
+  have hword : ∀ i, i < k + 1 → le16 data (8 + 2 * i) = 4096 := by
+    intro i hi
+    have := word_read (List.replicate (k + 1) 4096) (by simp) (u32le 0 ++ u32le (alignTo64 (8 + 2 * ps.length) 4)) [] i
+      (by simpa using hi)
+    rw [← hbytes] at this
+    simpa using this
+  have h8 : le32 data 8 = 268439552 := by
+    rw [le32_eq_le16, show 8 = 8 + 2 * 0 from rfl, hword 0 (by omega),
+      show 8 + 2 * 0 + 2 = 8 + 2 * 1 from rfl, hword 1 (by omega)]
+  have h12 : le32 data 12 = 268439552 := by
+    rw [le32_eq_le16, show 12 = 8 + 2 * 2 from rfl, hword 2 (by omega),
+      show 8 + 2 * 2 + 2 = 8 + 2 * 3 from rfl, hword 3 (by omega)]
+  have h16 : le16 data 16 = 4096 := by
+    rw [show 16 = 8 + 2 * 4 from rfl, hword 4 (by omega)]
+  -- the blocks
+  have hb0 : blocksFrom data 0 = ⟨0, 0, 0, 0⟩ :: blocksFrom data 8 := by
+    rw [blocksFrom_of_ge (by omega)]
+    simp only [blockAt, Nat.zero_add, hva, hsz0, hsize]
+    rfl
+  have hb8 : blocksFrom data 8 = blockAt data 8 ::
+      blocksFrom data (8 + step (le32 data (8 + 4)) (data.size - 8)) :=
+    blocksFrom_of_ge (by omega)
+  refine ⟨_, hb0, ?_⟩
+  obtain ⟨m, hm⟩ : ∃ m, (blockAt data 8).nwords = m + 1 := by
+    refine ⟨(blockAt data 8).nwords - 1, ?_⟩
+    simp only [blockAt, h12, hsize]
+    omega
+  have hfb : ∃ t, flatBlock data (blockAt data 8) = (268439552, 1) :: t := by
+    unfold flatBlock Block.words
+    rw [hm, List.range_succ_eq_map, List.map_cons, List.filterMap_cons]
+    simp only [blockAt, Nat.mul_zero, Nat.add_zero, h16, h8]
+    exact ⟨_, rfl⟩
+  obtain ⟨t, ht⟩ := hfb
+  unfold flat blocks
+  rw [hb0, hb8, List.flatMap_cons, List.flatMap_cons, ht]
+  exact ⟨_, rfl⟩
+
+theorem huge_not_wellformed (k : Nat) (hk : k + 1 = 2147483644) :
+    ∃ b ∈ blocks (build (List.replicate (k + 1) (0, 1))), b.size = 0 := by
+  obtain ⟨tl, h, -⟩ := huge_blocks k hk
+  exact ⟨⟨0, 0, 0, 0⟩, by rw [h]; exact List.mem_cons_self, rfl⟩
+
+theorem huge_not_roundtrip (k : Nat) (hk : k + 1 = 2147483644) :
+    flat (build (List.replicate (k + 1) (0, 1))) ≠ List.replicate (k + 1) (0, 1) := by
+  obtain ⟨-, -, tl', h⟩ := huge_blocks k hk
+  rw [h, List.replicate_succ]
+  intro hc
+  injection hc with h1 _
+  injection h1 with h1 _
+  omega
+
+theorem huge_input_ok (k : Nat) :
+    ∀ p ∈ List.replicate (k + 1) ((0, 1) : Nat × Nat), p.1 < 4294967296 ∧ 1 ≤ p.2 ∧ p.2 ≤ 15 := by
+  intro p hp
+  rw [List.eq_of_mem_replicate hp]
+  omega
+
 end Pelite.Relocs
